@@ -8,7 +8,6 @@ import (
 	"os"
 	"path/filepath"
 	"strings"
-	"time"
 
 	"github.com/echovault/sugardb/sugardb"
 )
@@ -61,7 +60,7 @@ func checkC11(ctx *Ctx) {
 		"distinct_nontrivial = distinct (step kind, expected outcome, user state class) classes")
 	ctx.Assume("the probe user rules are maximally permissive (allCategories allCommands allKeys), so a probe fails exactly when the connection is unauthenticated or its user is disabled or deleted",
 		"rule equality after SAVE/LOAD/restart is behavioural: the same AUTH outcomes and probe outcomes")
-	if ctx.Fork(8, "", 20*time.Minute) {
+	if ctx.Fork(8, "", ctx.Watchdog()) {
 		return
 	}
 	quietLogs()
